@@ -218,23 +218,24 @@ public:
   static unsigned opened;            // how many output files were opened
   static const char *last_path;
   static std::string paths[4];
+  static bool failed_any;            // some open / write / close of some output file failed
   vf_ofstream(const std::string& path, fmtflags mode = out) : vf_ostream(4)
   {
     (void)mode;
     if (opened < 4) paths[opened] = path;
     ++opened;
     vfio::log(4, vfio::K_OPEN, opened, nullptr, 0, 0, 0, false, false);
-    if (vf_nondet_u8() & 1) fail_ = true;
+    if (vf_nondet_u8() & 1) { fail_ = true; failed_any = true; }
   }
   vf_ofstream& write(const char *p, streamsize n)
   {
-    if (!fail_ && (vf_nondet_u8() & 1)) fail_ = true;           // device refuses the write
+    if (!fail_ && (vf_nondet_u8() & 1)) { fail_ = true; failed_any = true; }          // device refuses the write
     if (!fail_) vfio::log(4, vfio::K_WRITE, static_cast<unsigned long>(n), p, 0, 0, 0, false, false);
     return *this;
   }
   void close()
   {
-    if (!fail_ && (vf_nondet_u8() & 1)) fail_ = true;           // buffered data lost at close
+    if (!fail_ && (vf_nondet_u8() & 1)) { fail_ = true; failed_any = true; }          // buffered data lost at close
     vfio::log(4, vfio::K_CLOSE, fail_, nullptr, 0, 0, 0, false, false);
   }
 };
@@ -280,6 +281,7 @@ vf_ostream vf_cout(1), vf_cerr(2);
 unsigned vf_ofstream::opened;
 const char *vf_ofstream::last_path;
 std::string vf_ofstream::paths[4];
+bool vf_ofstream::failed_any;
 }
 #endif
 
